@@ -39,6 +39,8 @@ THEOREMS = [
     "C19_unnamed_emit_nothing",
     "C19_derives_sorted_nodup",
     "C19_expected_impls_cover_surface",
+    "C19_no_comparison_derives_over_settings_native",
+    "C19_comparison_derives_only_over_string",
 ]
 
 MUT = os.environ.get("C19_MUTATE", "")
@@ -315,6 +317,84 @@ NEGATIVE = [
 ]
 
 
+# ---- user types reached through conversions / replacements (IR: Native with the impls the SETTINGS list).
+# The support module is a driver chunk inside `pub mod __drv` of the module, so the generated code names the
+# types by the relative path `__drv::units::X` (no builder / defaults sub-module in these cases).
+SUPPORT = r"""
+pub mod units {
+    // f64 wrapper: Debug, Clone, Default, PartialEq, PartialOrd, serde, Display, FromStr - NO Eq / Ord / Hash
+    #[derive(Debug, Clone, Default, PartialEq, PartialOrd, ::serde::Serialize, ::serde::Deserialize)]
+    pub struct Percent(pub f64);
+    impl ::std::fmt::Display for Percent {
+        fn fmt(&self, f: &mut ::std::fmt::Formatter<'_>) -> ::std::fmt::Result { write!(f, "{}", self.0) }
+    }
+    impl ::std::str::FromStr for Percent {
+        type Err = ::std::num::ParseFloatError;
+        fn from_str(s: &str) -> ::std::result::Result<Self, Self::Err> { Ok(Percent(s.parse()?)) }
+    }
+    // String wrapper: everything
+    #[derive(Debug, Clone, Default, PartialEq, Eq, PartialOrd, Ord, Hash, ::serde::Serialize, ::serde::Deserialize)]
+    pub struct Tag(pub ::std::string::String);
+    impl ::std::fmt::Display for Tag {
+        fn fmt(&self, f: &mut ::std::fmt::Formatter<'_>) -> ::std::fmt::Result { write!(f, "{}", self.0) }
+    }
+    impl ::std::str::FromStr for Tag {
+        type Err = ::std::convert::Infallible;
+        fn from_str(s: &str) -> ::std::result::Result<Self, Self::Err> { Ok(Tag(s.to_string())) }
+    }
+    // the bare minimum the base surface needs: Debug, Clone, serde - no comparison, no Display / FromStr / Default
+    #[derive(Debug, Clone, ::serde::Serialize, ::serde::Deserialize)]
+    pub struct Opaque(pub ::serde_json::Value);
+}
+"""
+PERCENT = {"type": "number", "format": "percent"}
+TAGS = {"type": "string", "format": "tag"}
+OPAQUE = {"type": "string", "format": "opaque"}
+IMPL_COMBOS = [[], ["Display"], ["FromStr"], ["Display", "FromStr"], ["Display", "FromStr", "Default"]]
+
+
+def native_doc():
+    return {"definitions": {
+        "Opacity": PERCENT,                                     # named definition matching a conversion
+        "OpacityAlias": {"$ref": "#/definitions/Opacity"},      # alias newtype over it
+        "TagName": TAGS,
+        "OpaqueThing": OPAQUE,
+        "ReplacedPercent": {"type": "number"},                  # replaced by name
+        "ReplacedAlias": {"$ref": "#/definitions/ReplacedPercent"},
+        "Uses": obj({"req": PERCENT, "opt": PERCENT, "list": {"type": "array", "items": PERCENT},
+                     "map": {"type": "object", "additionalProperties": PERCENT},
+                     "keyed": {"type": "object", "propertyNames": TAGS, "additionalProperties": PERCENT},
+                     "r": {"$ref": "#/definitions/Opacity"}, "rp": {"$ref": "#/definitions/ReplacedPercent"},
+                     "tag": TAGS, "opaque": OPAQUE, "otag": TAGS}, ["req", "r", "tag", "opaque"]),
+        "Payload": {"oneOf": [PERCENT, {"type": "boolean"}]},   # untagged enum with a native payload
+        "TaggedPayload": {"oneOf": [obj({"P": PERCENT}, ["P"], additionalProperties=False),
+                                    obj({"T": TAGS}, ["T"], additionalProperties=False)]},
+        "TagOrOpaque": {"oneOf": [obj({"k": {"type": "string", "enum": ["t"]}, "v": TAGS}, ["k", "v"]),
+                                  obj({"k": {"type": "string", "enum": ["o"]}, "v": OPAQUE}, ["k", "v"])]},
+    }}
+
+
+def native_cases():
+    out = []
+    for a in IMPL_COMBOS:
+        for b in ([], ["Display", "FromStr"]):
+            st = {"convert": [{"schema": PERCENT, "type": "__drv::units::Percent", "impls": a},
+                              {"schema": TAGS, "type": "__drv::units::Tag", "impls": b},
+                              {"schema": OPAQUE, "type": "__drv::units::Opaque", "impls": []}],
+                  "replace": {"ReplacedPercent": {"type": "__drv::units::Percent", "impls": a}}}
+            out.append(({"src": "settings-native:percent[%s]:tag[%s]" % ("+".join(a), "+".join(b)), "neg": False,
+                         "model_derivable": True}, case_of(native_doc(), st)))
+    # minimal witness: ONE named definition over a converted f64 wrapper declared Display + FromStr
+    out.append(({"src": "settings-native:minimal-opacity", "neg": False, "model_derivable": True},
+                case_of({"definitions": {"Opacity": PERCENT}},
+                        {"convert": [{"schema": PERCENT, "type": "__drv::units::Percent", "impls": ["Display", "FromStr"]}]})))
+    out.append(({"src": "settings-native:minimal-replaced-alias", "neg": False, "model_derivable": True},
+                case_of({"definitions": {"ReplacedPercent": {"type": "number"},
+                                         "ReplacedAlias": {"$ref": "#/definitions/ReplacedPercent"}}},
+                        {"replace": {"ReplacedPercent": {"type": "__drv::units::Percent", "impls": ["Display", "FromStr"]}}})))
+    return out
+
+
 def doc_of(names, rename=None):
     defs = {}
     names = list(names)
@@ -349,6 +429,8 @@ def gen_cases(ctx):
                      "known": c.get("known"),
                      "model_derivable": bool(c.get("model_derivable", False))},
                     {"settings": c.get("settings", {}), "steps": c["steps"]}))
+    # 0b. newtypes / members / payloads over user types from conversions and replacements
+    out += native_cases()
     # 1. fixtures of the repository, under three settings
     fx = sorted(glob.glob(os.path.join(FIXTURE_DIR, "*.json")))
     for p in fx:
@@ -515,6 +597,8 @@ def chunks_fn(i, gen):
         items = scan_view(gen)
     except Exception:  # noqa
         return []
+    if "__drv::units::" in squash(gen["render"].get("code", "")):
+        chunks.append(("c19:support", SUPPORT, []))
     for k, v in enumerate(items):
         if v["vis"] != "pub":
             continue        # reported by the visibility scan; `super::T` would still resolve
@@ -703,6 +787,7 @@ def compare_views(mv, sv):
 # still compile, and K4 / K6 decide on concrete types whether the behaviour changed.
 SHAPE_PINS = [
     ("simple_enum_cond", '"variants . iter () . all (| variant | matches ! (variant . details , VariantDetails :: Simple))"'),
+    ("string_newtype_cond", '"is_str"'),
     ("newtype_inner_def", '"type_space . id_to_entry . get (type_id) . unwrap ()"'),
     ("is_str_def", '"matches ! (inner_type . details , TypeEntryDetails :: String)"'),
     ("struct_derive_ops", "(@nil string)"),
